@@ -162,6 +162,14 @@ fn attr_classes(p: &Program, obs: &mut Obs) {
         }
         if d.via_macro {
             obs.class("def/via_macro_rules");
+            if let crate::ast::Body::Struct(_, fs) = &d.body {
+                if fs.first().map_or(false, |f| f.attr.compact || f.attr.encoded_as) {
+                    obs.class("def/via_macro_rules_compact_member");
+                }
+                if fs.first().map_or(false, |f| f.attr.skip) {
+                    obs.class("def/via_macro_rules_skipped_member");
+                }
+            }
         }
         for f in d.all_fields() {
             if f.attr.skip {
